@@ -92,11 +92,10 @@ def _job(args):
         total += dt2
         if r2 in ("sat", "unsat"):
             return (name, r2, info2, total, "cvc5")
-    for seed in (0, 7, 23):
-        r3, info3, dt3 = _run_z3(text, timeout_ms, seed)
-        total += dt3
-        if r3 in ("sat", "unsat"):
-            return (name, r3, info3, total, "z3" if not seed else "z3(seed %d)" % seed)
+    r3, info3, dt3 = _run_z3(text, timeout_ms, 0)
+    total += dt3
+    if r3 in ("sat", "unsat"):
+        return (name, r3, info3, total, "z3")
     return (name, r, info, total, "z3+cvc5")
 
 
@@ -152,7 +151,8 @@ def discharge(obligations, timeout_ms=10000, jobs=None, use_cvc5=True, stats=Non
             results[i] = Result(ob, hit["status"], hit.get("info", ""), 0.0, hit["backend"] + "(cached)")
             hits += 1
             continue
-        payload.append(("%d" % i, text, cover, min(timeout_ms, 3000) if cover else timeout_ms, use_cvc5 and not cover,
+        t_ob = (ob.info or {}).get("timeout_ms") or timeout_ms
+        payload.append(("%d" % i, text, cover, min(t_ob, 3000) if cover else t_ob, use_cvc5 and not cover,
                         (ob.info or {}).get("prefer")))
     if stats is not None:
         stats["cache_hits"] = stats.get("cache_hits", 0) + hits
